@@ -11,6 +11,8 @@ import (
 	"encoding/json"
 	"fmt"
 	"math/rand"
+	"os"
+	"path/filepath"
 	"strings"
 	"time"
 
@@ -23,6 +25,7 @@ type redisCmd struct {
 }
 
 type redisDesc struct {
+	Backend string     `json:"backend"` // embedded | raft (raftBackend over the in-process fake client)
 	Cmds    []redisCmd `json:"cmds"`
 	Replies []string   `json:"replies"` // hex, as observed
 	Text    []string   `json:"text"`    // human-readable: command -> reply
@@ -242,7 +245,7 @@ func redisCaseTerm(d redisDesc) string {
 
 func runRedis(c *corr.Ctx) error {
 	c.Meta("run_module", "RunRedis")
-	c.Meta("rule", "random single-connection command sequences (5-40 commands + final MGET/EXISTS/GET of every key) over 4 keys with a per-case prefix; 20 values (empty, white space, int64 limits, non-integers, +5, 007, CRLF); SET with NX/XX/EX/PX/EXAT/PXAT/KEEPTTL/bogus options in random order and case, expiry arguments in the far past/future, zero, negative, non-integer, overflowing; DEL/EXISTS/MGET/MSET with repeated keys and odd arity; INCR/DECR/INCRBY/DECRBY with 15 deltas incl. -2^63; PING/ECHO with 0-2 arguments; unknown commands; QUIT. Raw reply bytes of every command compared. non-trivial = at least one write command succeeded; distinct by Gallina term")
+	c.Meta("rule", "two deployments of the same binary, alternating: embedded backend (real DB) and raft backend (backend_raft.go over the hook's in-process MVCC fake of the raft client, sequential clients only); 100 directed sequences per run (SET with past/future expiry, then MSET/SET/SET XX/SET NX/INCR/DEL/INCRBY on that key, then GET/EXISTS/INCR/DEL/MGET); random single-connection command sequences (5-40 commands + final MGET/EXISTS/GET of every key) over 4 keys with a per-case prefix; 20 values (empty, white space, int64 limits, non-integers, +5, 007, CRLF); SET with NX/XX/EX/PX/EXAT/PXAT/KEEPTTL/bogus options in random order and case, expiry arguments in the far past/future, zero, negative, non-integer, overflowing; DEL/EXISTS/MGET/MSET with repeated keys and odd arity; INCR/DECR/INCRBY/DECRBY with 15 deltas incl. -2^63; PING/ECHO with 0-2 arguments; unknown commands; QUIT. Raw reply bytes of every command compared. non-trivial = at least one write command succeeded; distinct by Gallina term")
 	bin, err := buildGateway(c.Out)
 	if err != nil {
 		return err
@@ -252,8 +255,31 @@ func runRedis(c *corr.Ctx) error {
 		return err
 	}
 	defer g.stop()
+	// second deployment: the real raftBackend (backend_raft.go) behind the same
+	// server, over the hook's in-process fake of the raft client
+	gr, err := startGateway(bin, c.Out, "NOKV_VERIF_MODE=raftfake")
+	if err != nil {
+		return err
+	}
+	defer gr.stop()
+	// the hook logs its banner right after Listen; an old hook ignores the mode
+	// and would start the ordinary embedded server instead
+	isFake := false
+	var glog []byte
+	for i := 0; i < 40 && !isFake; i++ {
+		glog, _ = os.ReadFile(filepath.Join(gr.dir, "gateway.log"))
+		isFake = strings.Contains(string(glog), "in-process fake")
+		if !isFake {
+			time.Sleep(50 * time.Millisecond)
+		}
+	}
+	if !isFake {
+		return fmt.Errorf("the gateway built from %s has no raftfake hook mode (cmd/nokv-redis/verif_hook_verif.go too old): refusing to run the raft half of the family against something else; log: %s", os.Getenv("VERIF_REPO"), glog)
+	}
+	gateways := map[string]*gateway{"embedded": g, "raft": gr}
 
 	emit := func(d redisDesc) {
+		c.Count("backend_" + d.Backend)
 		nontrivial := false
 		for i, cm := range d.Cmds {
 			a0, _ := hex.DecodeString(cm.Args[0])
@@ -295,23 +321,69 @@ func runRedis(c *corr.Ctx) error {
 				seq = append(seq, as)
 			}
 			seq = rePrefix(seq, fmt.Sprintf("r%d.%d:", time.Now().UnixNano()%1000000, i))
-			nd, err := runRedisSeq(g, seq)
+			tg := gateways[d.Backend]
+			if tg == nil {
+				tg, d.Backend = g, "embedded"
+			}
+			nd, err := runRedisSeq(tg, seq)
 			if err != nil {
 				return err
 			}
+			nd.Backend = d.Backend
 			emit(nd)
 		}
 		return nil
 	}
 
-	n := c.Scale(400, 12000)
+	// directed sequences (both backends): overwrite / delete / increment a key
+	// that carries an expiry in the past or in the far future, then observe it
+	di := 0
+	for _, backend := range []string{"embedded", "raft"} {
+		for _, exp := range [][]string{{"EXAT", "1"}, {"PXAT", "1000"}, {"EXAT", "4000000000"}, {"EX", "1000000"}, {"PX", "5000000000"}} {
+			for _, over := range [][]string{{"MSET", "K", "y"}, {"MSET", "K", "y", "K", "z"}, {"SET", "K", "y"}, {"SET", "K", "y", "XX"},
+				{"SET", "K", "y", "NX"}, {"INCR", "K"}, {"DEL", "K", "K"}, {"DEL", "K"}, {"INCRBY", "K", "5"}, {"MSET", "J", "1", "K", "  "}} {
+				di++
+				k := fmt.Sprintf("d%d.%d:a", c.Seed, di)
+				j := fmt.Sprintf("d%d.%d:b", c.Seed, di)
+				sub := func(as []string) []string {
+					out := make([]string, len(as))
+					for i, a := range as {
+						switch a {
+						case "K":
+							a = k
+						case "J":
+							a = j
+						}
+						out[i] = a
+					}
+					return out
+				}
+				val := []string{"7", "x"}[di%2]
+				seq := [][]string{append([]string{"SET", k, val}, exp...), sub(over), {"GET", k}, {"EXISTS", k, j}, {"INCR", k}, {"DEL", k, j}, {"MGET", k, j}}
+				d, err := runRedisSeq(gateways[backend], seq)
+				if err != nil {
+					return err
+				}
+				d.Backend = backend
+				c.Count("directed_expiry")
+				emit(d)
+			}
+		}
+	}
+
+	n := c.Scale(300, 12000)
 	for i := 0; i < n; i++ {
 		prefix := fmt.Sprintf("s%d.%d:", c.Seed, i)
 		seq := genRedisSeq(c.Rng, prefix, 5+c.Rng.Intn(36), false)
-		d, err := runRedisSeq(g, seq)
+		backend := "embedded"
+		if i%2 == 1 {
+			backend = "raft"
+		}
+		d, err := runRedisSeq(gateways[backend], seq)
 		if err != nil {
 			return err
 		}
+		d.Backend = backend
 		emit(d)
 	}
 	return nil
